@@ -44,7 +44,7 @@ KINDS = ('$', '>', '<', '!')
 # --------------------------------------------------------------------------------------------------
 # tokens
 # --------------------------------------------------------------------------------------------------
-def annotation_spec(entries, coarse=False):
+def annotation_spec(entries):
     """Expected annotation dict of a fragment atom (independent of cgsmiles.dialects).
 
     Written from docs/source/syntax/basic_graph_description.rst ("Reserved Annotation Symbols", atomic
@@ -200,7 +200,7 @@ def render(skeleton, insertions):
 ATOMS_ATOMISTIC = ['a:C', 'a:Cl', 'a:c', 'A:NH3+', 'A:C:0.5', 'A:O:q=4:p=s', 'A:C:x=R', 'a:Br',
                    'a:N', 'A:O-', 'A:13CH3', 'A:C:1:S', 'A:C:w=0.25:x=S', 'A:H:0.1', 'A:Si', 'a:*', 'a:o',
                    'A:C@H', 'A:C:r=abc']
-ATOMS_COARSE = ['A:#A', 'A:#TC4', 'A:#OT1:w=0.5', 'A:#CD1:r=abc', 'A:#OT1:0.5', 'A:#B2:x=S:w=2']
+ATOMS_COARSE = ['A:#A', 'A:#TC4', 'A:#OT1:w=0.5', 'A:#CD1:r=abc', 'A:#OT1:0.5', 'A:#B2:w=2:r=ab']
 
 # shapes: x = atom placeholder (filled left to right); everything else is a literal token.
 # Atomistic: the bond symbol of a branch follows '(' ; coarse (CGsmiles): it precedes '('.
@@ -255,7 +255,7 @@ def skeletons(tier):
     else:
         at, co = ATOMS_ATOMISTIC, ATOMS_COARSE
         for sh in SHAPES_ATOMISTIC:
-            for s in shifted_fillings(sh, at, len(at), step=5):
+            for s in shifted_fillings(sh, at, len(at) if n_placeholders(sh) <= 2 else 12, step=5):
                 out.append((s, 'atomistic'))
         for sh in SHAPES_EZ:
             for s in shifted_fillings(sh, ['a:C', 'a:F', 'a:Cl', 'A:C:x=R', 'a:N', 'a:Br', 'A:CH2'], 7, step=1):
@@ -396,7 +396,7 @@ def random_cases(seed, n_cases, max_ins, coarse_share=0.25, ez_share=0.15):
 # ==================================================================================================
 RT_SYMS = ('', '=', '.', '#', '-')          # orders 1 2 0 3 1  (the statement of C08 covers orders 0-3)
 
-# atomistic skeletons pysmiles reads (connected, no wildcard, no explicit [H] next to heavy atoms)
+# atomistic skeletons pysmiles reads (connected, no wildcard)
 RT_ATOMISTIC = [
     'a:C', 'a:C a:C', 'a:C a:O a:C', 'a:C b:= a:C', 'a:C b:# a:C', 'a:C b:- a:C',
     'a:C a:C ( a:C ) a:C ( b:= a:O ) a:O a:C',
@@ -407,7 +407,8 @@ RT_ATOMISTIC = [
     'a:c r:1 a:c a:c a:n a:c a:c r:1', 'a:c r:1 a:c a:c A:nH a:c r:1', 'a:N ( a:C ) a:C',
     'a:S ( b:= a:O ) ( b:= a:O ) a:C', 'A:H', 'A:Si ( a:C ) a:C', 'a:C ( a:F ) ( a:Cl ) a:Br',
     'a:c r:1 a:c a:c ( a:C ) a:c a:c a:c r:1', 'a:C a:C ( a:C ( a:O ) ) a:N', 'A:13CH3 a:C', 'a:O b:= a:C a:O',
-    'a:N b:# a:C a:C',
+    'a:N b:# a:C a:C', 'A:H a:C', 'a:C ( A:H ) a:O', 'a:c r:1 a:c a:c A:n+ ( a:C ) a:c a:c r:1', 'a:C a:P ( b:= a:O ) ( a:O ) a:O',
+    'a:C a:C r:1 a:C a:C r:2 a:C a:C r:1 a:C a:C r:2',
 ]
 # coarse skeletons read_cgsmiles reads (bond symbol BEFORE '(' ; no trailing %nn, no |n, no annotations)
 RT_COARSE = [
